@@ -416,7 +416,7 @@ def finish(res, tier, seed, level, t0):
     cov["rule"] = cov["rule"] or ("scenarios are generated from (seed, tier, family, index); distinct = distinct step lists; "
                    "every scenario is executed by the real solver and its complete event trace is validated "
                    "by TLC against spec/Trace.tla")
-    cov["exhaustive"] = False
+    cov.setdefault("exhaustive", False)
     if not cov["samples"]:
         cov["samples"] = [{"note": "no trace samples in this run"}]
     code = 0
@@ -530,6 +530,81 @@ def check_C11(res, tier, seed):
                        "firing at poll k for every k in 0..P (sampled if P is large) and retried afterwards")
 
 
+def tlc_generate(module, cfg, outfile, timeout=900, workers=1, extra=None):
+    """Runs TLC on a generator configuration and collects the GENJ lines into an ndjson file."""
+    md = workdir("gen_" + cfg)
+    cmd = ["tlc", "-workers", str(workers), "-metadir", md, "-cleanup", "-noGenerateSpecTE",
+           "-config", cfg + ".cfg", module + ".tla"] + (extra or [])
+    rc, out, dt = sh(cmd, cwd=SPEC, env={"JAVA_TOOL_OPTIONS": "-Xss1g -Xmx8g"}, timeout=timeout, check=False)
+    n = 0
+    states = 0
+    with open(outfile, "a") as f:
+        for line in out.splitlines():
+            line = line.strip()
+            if line.startswith('"GENJ '):
+                try:
+                    f.write(json.loads(line)[5:] + "\n")
+                    n += 1
+                except Exception:
+                    pass
+            m = re.match(r"(\d+) states generated, (\d+) distinct states found", line)
+            if m:
+                states = int(m.group(2))
+    shutil.rmtree(md, ignore_errors=True)
+    if n == 0:
+        raise ToolError("generator %s produced nothing:\n%s" % (cfg, out[-2000:]))
+    return n, states, dt
+
+
+def check_C19(res, tier, seed):
+    # (1) the reader grammar as transcribed must give back every step the writer grammar produces
+    mc_part(res, "MC_DrcpFormat", "MC_DrcpFormat", label="C19.MC.RoundTrip")
+    # vacuity: the grammar as found (before the fix of F5) must violate the invariant
+    mc_part(res, "MC_DrcpFormat", "MC_DrcpFormat_asfound", expect_ok=False)
+    # (2) every behaviour TLC enumerates is replayed through the real writer and reader
+    d = workdir("C19_mbt")
+    beh = os.path.join(d, "behaviours.ndjson")
+    total = 0
+    for cfg in ["Gen_DrcpFormat_1", "Gen_DrcpFormat_2", "Gen_DrcpFormat_lits"]:
+        k, states, dt = tlc_generate("MC_DrcpFormat", cfg, beh)
+        total += k
+        res.cov["parts"].append({"part": cfg, "kind": "behaviour-generation", "behaviours": k,
+                                 "states": states, "tlc_wall_s": round(dt, 1)})
+        res.cov["states"] += states
+    build_harness()
+    results = os.path.join(d, "results.ndjson")
+    sh([PVH, "drcp", "--in", beh, "--out", results], timeout=1800)
+    findings = load_findings()
+    bad = collections.Counter()
+    n = 0
+    with open(results) as f:
+        for line in f:
+            r = json.loads(line)
+            n += 1
+            if r.get("ok") is True:
+                continue
+            bad[r["kind"]] += 1
+            if bad[r["kind"]] > 25:
+                continue
+            hit = {"mon": "C19." + r["kind"], "fam": "drcp", "id": r["n"], "i": r["n"],
+                   "w": json.dumps({k: v for k, v in r.items() if k not in ("behaviour",)})[:600]}
+            res.add_hit(hit, None, findings, extra={"behaviour": r.get("behaviour")})
+    res.cov["traces_validated_against_impl"] += n
+    res.cov["evaluations"] += n
+    res.cov["distinct_nontrivial"] += n
+    res.cov["transitions"] += n
+    res.cov["exhaustive"] = True
+    res.cov["mismatch_kinds"] = dict(bad)
+    with open(beh) as f:
+        for i, line in enumerate(f):
+            if i in (0, 5000, 17000):
+                res.cov["samples"].append(json.loads(line))
+    res.cov["rule"] = ("TLC enumerates every writer call over the alphabet of MC_DrcpFormat.tla (all single calls x "
+                       "all conclusions, all pairs over a reduced alphabet, all literal definitions); each behaviour "
+                       "carries the text and the steps the specification expects; the real ProofWriter output must "
+                       "equal the text and the real ProofReader must return the steps")
+
+
 def check_C10(res, tier, seed):
     tv_part(res, ["history"], n(tier, 60, 600), seed, tier, "history")
 
@@ -559,6 +634,7 @@ CHECKS = {
     "C08": (check_C08, "model_checking"),
     "C09": (check_C09, "model_checking"),
     "C10": (check_C10, "model_checking"),
+    "C19": (check_C19, "model_checking"),
     "C12": (check_C12, "model_checking"),
     "C17": (check_C17, "model_checking"),
     "C18": (check_C18, "model_checking"),
